@@ -59,38 +59,38 @@ type MutexSt struct {
 }
 
 type State struct {
-	Heap     map[int]Value
-	NextObj  int
-	PC       []string
-	Decls    []VarDecl
-	Threads  []*Thread
-	Cur      int
-	Mutex    map[string]MutexSt
-	Clock    string
-	ClockMax string
-	EqLits   map[string]string // terms an Assume fixed to a literal string
-	Now0     string
-	Occ      map[string]int
-	Nondet   []NondetRec
-	UF       []UFApp
-	Trace    []string
-	Overflow []string
-	NoPanic  bool
-	Depth    int
-	Reached  []string
-	Assumes  int
-	Sched    *SchedSt
+	Heap        map[int]Value
+	NextObj     int
+	PC          []string
+	Decls       []VarDecl
+	Threads     []*Thread
+	Cur         int
+	Mutex       map[string]MutexSt
+	Clock       string
+	ClockMax    string
+	EqLits      map[string]string // terms an Assume fixed to a literal string
+	Now0        string
+	Occ         map[string]int
+	Nondet      []NondetRec
+	UF          []UFApp
+	Trace       []string
+	Overflow    []string
+	NoPanic     bool
+	Depth       int
+	Reached     []string
+	Assumes     int
+	Sched       *SchedSt
 	FreshBranch map[string]bool // unconstrained fresh booleans (fast path)
-	Steps    int
+	Steps       int
 }
 
 func (s *State) frame() *Frame {
 	st := s.Threads[s.Cur].Stack
 	return st[len(st)-1]
 }
-func (s *State) stack() []*Frame      { return s.Threads[s.Cur].Stack }
-func (s *State) setStack(f []*Frame)  { s.Threads[s.Cur].Stack = f }
-func (s *State) push(f *Frame)        { s.Threads[s.Cur].Stack = append(s.Threads[s.Cur].Stack, f) }
+func (s *State) stack() []*Frame     { return s.Threads[s.Cur].Stack }
+func (s *State) setStack(f []*Frame) { s.Threads[s.Cur].Stack = f }
+func (s *State) push(f *Frame)       { s.Threads[s.Cur].Stack = append(s.Threads[s.Cur].Stack, f) }
 
 func (s *State) Fork() *State {
 	n := &State{NextObj: s.NextObj, Cur: s.Cur, Clock: s.Clock, ClockMax: s.ClockMax, Now0: s.Now0, NoPanic: s.NoPanic, Depth: s.Depth, Assumes: s.Assumes, Steps: s.Steps}
